@@ -21,6 +21,7 @@ type mnode struct {
 	Op   int     `json:"op,omitempty"` // 1..6 built-in, 7 user operator
 	Fold bool    `json:"fold,omitempty"`
 	Cap  int     `json:"cap,omitempty"`
+	Deco bool    `json:"decorated,omitempty"` // symbol, delimiter, parenthetical, lead-once, no-padding, encapsulation, ID, category all set
 }
 
 func (n mnode) String() string {
@@ -40,6 +41,9 @@ func (n mnode) String() string {
 	}
 	if n.Cap > 0 {
 		f += fmt.Sprintf("/%d", n.Cap)
+	}
+	if n.Deco {
+		f += "*"
 	}
 	return n.Kind + f + "[" + strings.Join(p, " ") + "]"
 }
@@ -78,6 +82,10 @@ func (n mnode) build() any {
 	}
 	if n.Fold {
 		s.SetFold(true)
+	}
+	if n.Deco {
+		// presentation settings must not leak into the []any form
+		s.SetSymbol("||").SetDelimiter(";").SetParen(true).SetLeadOnce(true).SetNoPadding(true).SetEncap(`"`).SetID("id").SetCategory("cat").SetNegativeIndices(true)
 	}
 	for _, k := range n.Kids {
 		s.Push(k.build())
@@ -360,6 +368,9 @@ func c04Trees(c *Ctx) []mnode {
 		inner := mnode{T: "stack", Kind: "OR", Kids: []mnode{d1[i], leaves[i%len(leaves)]}}
 		trees = append(trees, mnode{T: "stack", Kind: "AND", Kids: []mnode{inner, {T: "cond", Kw: "deep", Op: 5, Kids: []mnode{inner}}}})
 		trees = append(trees, mnode{T: "stack", Kind: "NOT", Fold: true, Kids: []mnode{d1[i]}}, mnode{T: "stack", Kind: "LIST", Cap: 4, Kids: []mnode{d1[i], leaves[0]}})
+		deco := d1[i]
+		deco.Deco = true
+		trees = append(trees, deco, mnode{T: "stack", Kind: kindNames[i%5], Deco: true, Kids: []mnode{deco, leaves[i%len(leaves)], {T: "cond", Kw: "dk", Op: 2, Kids: []mnode{deco}}}})
 	}
 	return trees
 }
